@@ -417,6 +417,55 @@ func (w *World) checkOffset(si *siteInfo, base *PVar, a PosAlt, terms []IExpr, w
 				}
 			}
 		}
+		// (b2) a constant chosen per kind of the token (`case IsKeywordLike("FIRST"): order = NullOrderFirst; case
+		// IsKeywordLike("LAST"): …`): per incoming edge of the phi, the constant against what is known about the token there
+		if phi, ok := stripConv(sv).(*ssa.Phi); ok && a.src != nil {
+			live := w.liveBlocks(phi.Parent())
+			okAll, n := true, 0
+			for i, ed := range phi.Edges {
+				if !w.liveEdge(live, phi.Block().Preds[i]) {
+					continue
+				}
+				c, isC := constString(stripConv(ed))
+				if !isC {
+					okAll = false
+					break
+				}
+				pred := phi.Block().Preds[i]
+				f := pf.tk.FactOf(a.src, pred.Instrs[len(pred.Instrs)-1])
+				if si2, isI := a.src.(ssa.Instruction); isI && f.IsTop() && si2.Block() == phi.Block() {
+					// the position is read from the current token right behind the join, before anything is consumed: the
+					// token is the one the edge arrived with
+					clean := true
+					for _, in2 := range phi.Block().Instrs {
+						if in2 == si2 {
+							break
+						}
+						if _, isCall := in2.(ssa.CallInstruction); isCall {
+							clean = false
+						}
+					}
+					if st := pf.tk.StateBefore(pred.Instrs[len(pred.Instrs)-1]); clean && st != nil {
+						f = st.cur
+					}
+				}
+				if f.IsEmpty() {
+					continue
+				}
+				n++
+				l, known := tokenLen(f)
+				if !known || a.off+sum+len(c) != l {
+					if known {
+						return bad(fmt.Sprintf("when %s=%q (length %d) the token is %s of length %d", lenVar, c, len(c), f, l))
+					}
+					okAll = false
+					break
+				}
+			}
+			if okAll && n > 0 {
+				return okAlt()
+			}
+		}
 		// (c) constants of the field vs the token
 		av := si.env[lenVar]
 		if len(av.consts) > 0 && !av.consts["?"] && !av.top {
